@@ -429,7 +429,9 @@ def r06_4_5(ctx: Ctx) -> None:
     if lview is not None and lview.seq:
         swept = ast.parse(lview.seq, mode="eval").body
     ok = any(isinstance(s, ast.Expr) and txt(s.value) == f"{txt(swept)}.sort()" and cfg.dominates(cfg.n(s), cfg.n(loop))
-             for s in func.body) or (isinstance(swept, ast.Call) and call_name(swept) == "sorted")
+             for s in func.body) or (isinstance(swept, ast.Call) and call_name(swept) == "sorted") or \
+        (isinstance(swept, ast.Name) and bool(bound_from(func, swept.id))
+         and all(isinstance(v, ast.Call) and call_name(v) == "sorted" and kwarg(v, "key") is None for v in bound_from(func, swept.id)))
     ctx.ob("R06.5", REC, func, qual, "areas sorted", ok, "the sweep runs over the areas in sorted order", form="")
     # the closing step of the ring: an overlap test between the first and the last section of the swept list
     section_list = next((txt(c.func.value) for c in calls(func) if last_attr(c) == "append" and isinstance(c.func, ast.Attribute)
